@@ -1534,6 +1534,10 @@ func (r *Run) maybeNilSource(v ssa.Value) (kind, desc string, ok bool) {
 						return "P5", "element of a JSON-decoded " + shortType(ld.Type()), true
 					}
 				}
+				// the list arrives as a parameter and some caller passes a JSON-decoded list
+				if prm, isPrm := ia.X.(*ssa.Parameter); isPrm && r.jsonDecodedList(prm, 0) {
+					return "P5", "element of a JSON-decoded " + shortType(prm.Type()) + " (decoded by a caller)", true
+				}
 			}
 		}
 		// element of a named list type of the module that is the type of a JSON-decoded field
@@ -2232,6 +2236,37 @@ var allTables = []namedTable{
 	{"bounds", &boundsTable}, {"assert", &assertTable}, {"panic", &panicTable}, {"div", &divTable}, {"nil", &nilTable},
 	{"err", &errTable}, {"det", &detTable}, {"select", &selectTable}, {"stepLoop", &stepLoopTable},
 	{"planWrite", &planWriteTable}, {"astWrite", &astWriteTable}, {"variableWrite", &variableWriteTable}, {"fanoutOwnerWrites", &fanoutOwnerWrites}, {"cmp", &cmpTable}, {"globalWrite", &globalWriteTable},
+}
+
+// jsonDecodedList: v is a list read from a variable that was handed to encoding/json, or a
+// parameter for which some direct caller passes such a list.
+func (r *Run) jsonDecodedList(v ssa.Value, depth int) bool {
+	switch x := v.(type) {
+	case *ssa.UnOp:
+		if al, ok := x.X.(*ssa.Alloc); ok && x.Op == token.MUL {
+			return jsonDecodedInto(al)
+		}
+	case *ssa.Parameter:
+		g := x.Parent()
+		if g == nil || depth > 2 {
+			return false
+		}
+		k := -1
+		for i, p := range g.Params {
+			if p == x {
+				k = i
+			}
+		}
+		for _, e := range r.P.CG.In[g] {
+			if e.Kind != "static" || k < 0 || k >= len(e.Site.Common().Args) {
+				continue
+			}
+			if r.jsonDecodedList(e.Site.Common().Args[k], depth+1) {
+				return true
+			}
+		}
+	}
+	return false
 }
 
 // jsonDecodedInto: the address of al is handed to encoding/json (Unmarshal / Decoder.Decode).
